@@ -299,3 +299,108 @@ Section TwoMetrics.
     - split; [now symmetry|]. destruct H1 as (_ & _ & _ & _ & _ & Hr & _). now symmetry.
   Qed.
 End TwoMetrics.
+
+(* ---------- the same statements field by field (the form used in Props/C11_rescale.v) ---------- *)
+
+(* [b] is [a] with its costs mapped by [f] *)
+Definition nodes_mapped {W1 W2} (f : W1 -> W2) (a : @nodes W1) (b : @nodes W2) : Prop :=
+  n_cost b = map f (n_cost a) /\ n_pred b = n_pred a /\ n_label b = n_label a /\
+  n_plabel b = n_plabel a /\ n_status b = n_status a /\ n_relevant b = n_relevant a /\
+  n_order b = n_order a.
+
+Lemma nodes_mapped_iff {W1 W2} (f : W1 -> W2) a b : nodes_mapped f a b <-> b = map_nodes f a.
+Proof.
+  destruct a as [c1 p1 l1 pl1 s1 r1 o1], b as [c2 p2 l2 pl2 s2 r2 o2].
+  unfold nodes_mapped, map_nodes; cbn [n_cost n_pred n_label n_plabel n_status n_relevant n_order].
+  split.
+  - intros (Hc & Hp & Hl & Hpl & Hs & Hr & Ho). now subst.
+  - intros H. injection H as -> -> -> -> -> -> ->. repeat split.
+Qed.
+
+Section RescaleFields.
+  Context {W1 W2 : Type} (f : W1 -> W2).
+  Variables (ltb1 : W1 -> W1 -> bool) (ltb2 : W2 -> W2 -> bool).
+  Hypothesis Hmono : forall a b, ltb2 (f a) (f b) = ltb1 a b.
+
+  Theorem rescale_find_prototypes_fields top n w nd nd' :
+    nodes_mapped f nd nd' ->
+    nodes_mapped f (find_prototypes ltb1 top n w nd)
+                   (find_prototypes ltb2 (f top) n (fun p q => f (w p q)) nd').
+  Proof.
+    intros H. apply nodes_mapped_iff in H. subst nd'. apply nodes_mapped_iff.
+    now apply rescale_find_prototypes_gen.
+  Qed.
+
+  Theorem rescale_compete_fields zero top semi nl n w nd nd' :
+    nodes_mapped f nd nd' ->
+    nodes_mapped f (compete ltb1 zero top semi nl n w nd)
+                   (compete ltb2 (f zero) (f top) semi nl n (fun p q => f (w p q)) nd').
+  Proof.
+    intros H. apply nodes_mapped_iff in H. subst nd'. apply nodes_mapped_iff.
+    now apply rescale_compete_gen.
+  Qed.
+
+  Theorem rescale_sup_fit_fields zero top labels w :
+    nodes_mapped f (sup_fit ltb1 zero top labels w)
+                   (sup_fit ltb2 (f zero) (f top) labels (fun p q => f (w p q))).
+  Proof. apply nodes_mapped_iff. now apply rescale_sup_fit_gen. Qed.
+
+  Theorem rescale_semi_fit_fields zero top labels nu w :
+    nodes_mapped f (semi_fit ltb1 zero top labels nu w)
+                   (semi_fit ltb2 (f zero) (f top) labels nu (fun p q => f (w p q))).
+  Proof. apply nodes_mapped_iff. now apply rescale_semi_fit_gen. Qed.
+
+  Theorem rescale_predict_fields zero nd nd' ds :
+    nodes_mapped f nd nd' ->
+    snd (predict_batch ltb2 (f zero) nd' (map (fun d k => f (d k)) ds))
+    = snd (predict_batch ltb1 zero nd ds) /\
+    nodes_mapped f (fst (predict_batch ltb1 zero nd ds))
+                   (fst (predict_batch ltb2 (f zero) nd' (map (fun d k => f (d k)) ds))).
+  Proof.
+    intros H. apply nodes_mapped_iff in H. subst nd'.
+    rewrite (rescale_predict_gen f ltb1 ltb2 Hmono). cbn [fst snd]. split; [reflexivity|].
+    now apply nodes_mapped_iff.
+  Qed.
+End RescaleFields.
+
+Section RescaleZFields.
+  Variable f : Z -> Z.
+  Hypothesis Hinc : forall a b, (a < b)%Z -> (f a < f b)%Z.
+
+  Theorem rescale_find_prototypes_Z top n w nd nd' :
+    nodes_mapped f nd nd' ->
+    nodes_mapped f (find_prototypes Z.ltb top n w nd)
+                   (find_prototypes Z.ltb (f top) n (fun p q => f (w p q)) nd').
+  Proof. apply rescale_find_prototypes_fields, Zltb_mono, Hinc. Qed.
+
+  Theorem rescale_compete_Z zero top semi nl n w nd nd' :
+    nodes_mapped f nd nd' ->
+    nodes_mapped f (compete Z.ltb zero top semi nl n w nd)
+                   (compete Z.ltb (f zero) (f top) semi nl n (fun p q => f (w p q)) nd').
+  Proof. apply rescale_compete_fields, Zltb_mono, Hinc. Qed.
+
+  Theorem rescale_sup_fit_Z zero top labels w :
+    nodes_mapped f (sup_fit Z.ltb zero top labels w)
+                   (sup_fit Z.ltb (f zero) (f top) labels (fun p q => f (w p q))).
+  Proof. apply rescale_sup_fit_fields, Zltb_mono, Hinc. Qed.
+
+  Theorem rescale_semi_fit_Z zero top labels nu w :
+    nodes_mapped f (semi_fit Z.ltb zero top labels nu w)
+                   (semi_fit Z.ltb (f zero) (f top) labels nu (fun p q => f (w p q))).
+  Proof. apply rescale_semi_fit_fields, Zltb_mono, Hinc. Qed.
+
+  Theorem rescale_predict_Z zero nd nd' ds :
+    nodes_mapped f nd nd' ->
+    snd (predict_batch Z.ltb (f zero) nd' (map (fun d k => f (d k)) ds))
+    = snd (predict_batch Z.ltb zero nd ds) /\
+    nodes_mapped f (fst (predict_batch Z.ltb zero nd ds))
+                   (fst (predict_batch Z.ltb (f zero) nd' (map (fun d k => f (d k)) ds))).
+  Proof. apply rescale_predict_fields, Zltb_mono, Hinc. Qed.
+
+  (* train and classify on the transformed weights *)
+  Theorem rescale_pipeline_Z zero top labels w ds :
+    snd (predict_batch Z.ltb (f zero) (sup_fit Z.ltb (f zero) (f top) labels (fun p q => f (w p q)))
+                       (map (fun d k => f (d k)) ds))
+    = snd (predict_batch Z.ltb zero (sup_fit Z.ltb zero top labels w) ds).
+  Proof. apply rescale_predict_Z, rescale_sup_fit_Z. Qed.
+End RescaleZFields.
